@@ -114,7 +114,9 @@ let show_row (r : HelpModel.row) =
 
 let show_screen (s : HelpModel.screen) =
   let open HelpModel in
-  let about = match s.scr_about with Some a -> hex a | None -> "none" in
+  let about = match s.scr_about with
+    | Some a -> (match split_sp a with t :: _ -> hex t | [] -> "none")
+    | None -> "none" in
   let secs = Stdlib.List.map (fun sec ->
     " (sec " ^ hex sec.s_title ^ String.concat "" (Stdlib.List.map (fun r -> " " ^ show_row r) sec.s_rows) ^ ")") s.scr_sections in
   Printf.sprintf "ok (about %s) %s%s" about (show_usage s.scr_usage) (String.concat "" secs)
